@@ -235,37 +235,119 @@ def core_pick(ctx, name, n, fixed):
 # ---------------------------------------------------------------------------------------------
 # (a) name construction
 # ---------------------------------------------------------------------------------------------
-def lifted_templates():
-    """locate the f-strings that build the association-table name and its two column names in the generator's source"""
+class Unmodelled(Exception):
+    pass
+
+
+EXTERNAL_ROOTS = ("self", "wrapped_field", "target_wrapped_table")
+NAME_TARGETS = ("association_table_name", "left_fk_name", "right_fk_name")
+
+
+def name_program():
+    """the part of the generator's source that computes the association-table name and its two column names: the body
+    of WrappedTable.create_one_to_many_relationship, the names these three depend on (backward slice over the assignments)
+    and the module-level constants"""
     import krrood.ormatic.wrapped_table as WT
 
     tree = ast.parse(open(WT.__file__).read())
-    found = {}
-    for node in ast.walk(tree):
-        if isinstance(node, ast.FunctionDef) and node.name == "create_one_to_many_relationship":
-            for st in ast.walk(node):
-                if isinstance(st, ast.Assign) and isinstance(st.targets[0], ast.Name) and st.targets[0].id in ("association_table_name", "left_fk_name", "right_fk_name"):
-                    val = st.value
-                    parts = []
-                    for js in ast.walk(val):
-                        if isinstance(js, ast.JoinedStr):
-                            for p in js.values:
-                                parts.append(p.value if isinstance(p, ast.Constant) else ast.unparse(p.value))
-                            break
-                    found[st.targets[0].id] = parts
-    return found
+    consts = {}
+    for st in tree.body:
+        if isinstance(st, ast.Assign) and len(st.targets) == 1 and isinstance(st.targets[0], ast.Name) and isinstance(st.value, ast.Constant):
+            consts[st.targets[0].id] = st.value.value
+    fn = next((n for n in ast.walk(tree) if isinstance(n, ast.FunctionDef) and n.name == "create_one_to_many_relationship"), None)
+    if fn is None:
+        raise Unmodelled("create_one_to_many_relationship not found")
+    relevant = set(NAME_TARGETS)
+    changed = True
+    while changed:
+        changed = False
+        for st in ast.walk(fn):
+            if isinstance(st, ast.Assign) and len(st.targets) == 1 and isinstance(st.targets[0], ast.Name) and st.targets[0].id in relevant:
+                for nm in ast.walk(st.value):
+                    if isinstance(nm, ast.Name) and nm.id not in relevant and nm.id not in EXTERNAL_ROOTS and nm.id not in consts and nm.id != "len":
+                        relevant.add(nm.id)
+                        changed = True
+    if not all(any(isinstance(st, ast.Assign) and isinstance(st.targets[0], ast.Name) and st.targets[0].id == t for st in ast.walk(fn)) for t in NAME_TARGETS):
+        raise Unmodelled("the names are not computed by assignments to %s" % (NAME_TARGETS,))
+    return fn, consts, relevant
 
 
-def _render(parts, env):
-    """evaluate a lifted template on (possibly symbolic) strings; .lower() is applied per character"""
-    out = None
-    for p in parts:
-        if p in env:
-            piece = env[p]
-        else:
-            piece = p
-        out = piece if out is None else out + piece
-    return out
+def _ev(node, env, consts):
+    """evaluate a string / int expression of the generator on (possibly symbolic) strings"""
+    if isinstance(node, ast.Constant) and isinstance(node.value, (str, int)):
+        return node.value
+    if isinstance(node, ast.Name):
+        if node.id in env:
+            return env[node.id]
+        if node.id in consts:
+            return consts[node.id]
+        raise Unmodelled("name %s" % node.id)
+    if isinstance(node, ast.Attribute):
+        key = ast.unparse(node)
+        if key in env:
+            return env[key]
+        raise Unmodelled("attribute %s" % key)
+    if isinstance(node, ast.JoinedStr):
+        out = ""
+        for p in node.values:
+            if isinstance(p, ast.Constant):
+                out = out + p.value
+            elif isinstance(p, ast.FormattedValue) and p.conversion == -1 and p.format_spec is None:
+                piece = _ev(p.value, env, consts)
+                if isinstance(piece, int):
+                    piece = str(piece)
+                out = out + piece
+            else:
+                raise Unmodelled("formatted value with conversion / format spec")
+        return out
+    if isinstance(node, ast.Call):
+        if isinstance(node.func, ast.Attribute) and node.func.attr == "lower" and not node.args and not node.keywords:
+            return lower(_ev(node.func.value, env, consts))
+        if isinstance(node.func, ast.Name) and node.func.id == "len" and len(node.args) == 1:
+            return len(_ev(node.args[0], env, consts))
+        raise Unmodelled("call %s" % ast.unparse(node.func))
+    if isinstance(node, ast.BinOp) and isinstance(node.op, (ast.Add, ast.Sub)):
+        l, r = _ev(node.left, env, consts), _ev(node.right, env, consts)
+        return l + r if isinstance(node.op, ast.Add) else l - r
+    if isinstance(node, ast.Subscript) and isinstance(node.slice, ast.Slice):
+        v = _ev(node.value, env, consts)
+        lo = _ev(node.slice.lower, env, consts) if node.slice.lower is not None else None
+        hi = _ev(node.slice.upper, env, consts) if node.slice.upper is not None else None
+        if node.slice.step is not None:
+            raise Unmodelled("slice step")
+        return v[lo:hi]
+    if isinstance(node, ast.Compare) and len(node.ops) == 1 and isinstance(node.ops[0], (ast.Eq, ast.NotEq)):
+        l, r = _ev(node.left, env, consts), _ev(node.comparators[0], env, consts)
+        eq = (l == r) if len(l) == len(r) else False
+        return eq if isinstance(node.ops[0], ast.Eq) else NOT(eq)
+    raise Unmodelled(ast.unparse(node)[:60])
+
+
+def _assigns_relevant(st, relevant):
+    return any(isinstance(x, ast.Assign) and len(x.targets) == 1 and isinstance(x.targets[0], ast.Name) and x.targets[0].id in relevant for x in ast.walk(st))
+
+
+def _exec(stmts, env, consts, relevant):
+    for st in stmts:
+        if isinstance(st, ast.Assign) and len(st.targets) == 1 and isinstance(st.targets[0], ast.Name):
+            if st.targets[0].id in relevant:
+                env[st.targets[0].id] = _ev(st.value, env, consts)
+        elif isinstance(st, ast.If):
+            if _assigns_relevant(st, relevant):
+                c = _ev(st.test, env, consts)
+                _exec(st.body if bool(c) else st.orelse, env, consts, relevant)  # a symbolic condition forks the path
+        elif _assigns_relevant(st, relevant):
+            raise Unmodelled("a name is assigned inside a %s statement" % type(st).__name__)
+
+
+def generated_names(program, cls, fld, target):
+    """run the generator's own name computation (interpreted from its current source) for the collection `fld` of class `cls`
+    with elements of class `target`; returns (association table name, left column, right column)"""
+    fn, consts, relevant = program
+    env = {"self.tablename": cls + "DAO", "wrapped_field.field.name": fld, "self.ormatic.foreign_key_postfix": "_id", "target_wrapped_table.tablename": target + "DAO",
+           "self.full_primary_key_name": cls + "DAO.database_id", "target_wrapped_table.full_primary_key_name": target + "DAO.database_id"}
+    _exec(fn.body, env, consts, relevant)
+    return tuple(env[t] for t in NAME_TARGETS)
 
 
 def lower(s):
@@ -284,38 +366,36 @@ def ident(ctx, name, max_len):
     return s
 
 
-def name_collision_case(which, L):
-    templates = lifted_templates()
+def name_collision_case(which, L, prefix=""):
+    """prefix: a concrete string every class name starts with (long names reach length limits of the generator)"""
+    try:
+        program = name_program()
+    except Unmodelled as e:
+        program = e
 
     def h(ctx):
-        need = {"association_table_name", "left_fk_name", "right_fk_name"}
-        if set(templates) != need:
-            return {"templates-located": False}
-        c1, c2 = ident(ctx, "class1", L), ident(ctx, "class2", L)
+        if isinstance(program, Exception):
+            raise symx.SymxError("the name computation of the generator is outside the modelled subset: %s" % program)
+        c1, c2 = prefix + ident(ctx, "class1", L), prefix + ident(ctx, "class2", L)
         f1, f2 = ident(ctx, "field1", L), ident(ctx, "field2", L)
-
-        def env(cls, fld, target=None):
-            e = {"self.tablename.lower()": lower(cls + "DAO"), "wrapped_field.field.name": fld, "self.ormatic.foreign_key_postfix": "_id"}
-            if target is not None:
-                e["target_wrapped_table.tablename.lower()"] = lower(target + "DAO")
-            return e
-
         v = {}
         symbolic = ctx.symbolic
         same_ci = (lower(c1) == lower(c2)) if len(c1) == len(c2) else False
-        if which == "association-table-name":
-            n1 = _render(templates["association_table_name"], env(c1, f1))
-            n2 = _render(templates["association_table_name"], env(c2, f2))
-            different_pairs = OR(NOT(c1 == c2) if len(c1) == len(c2) else True, NOT(f1 == f2) if len(f1) == len(f2) else True)
-            collide = AND(different_pairs, n1 == n2) if len(n1) == len(n2) else False
-            names = (c1, f1, c2, f2)
-            label = "distinct-collections-get-distinct-association-tables"
-        else:  # the two columns of one association table (c1 has a collection of c2)
-            l = _render(templates["left_fk_name"], env(c1, f1, c2))
-            r = _render(templates["right_fk_name"], env(c1, f1, c2))
-            collide = AND((l == r) if len(l) == len(r) else False, NOT(c1 == c2) if len(c1) == len(c2) else True)
-            names = (c1, f1, c2, None)
-            label = "association-table-columns-differ"
+        try:
+            if which == "association-table-name":
+                n1 = generated_names(program, c1, f1, "Target")[0]
+                n2 = generated_names(program, c2, f2, "Target")[0]
+                different_pairs = OR(NOT(c1 == c2) if len(c1) == len(c2) else True, NOT(f1 == f2) if len(f1) == len(f2) else True)
+                collide = AND(different_pairs, n1 == n2) if len(n1) == len(n2) else False
+                names = (c1, f1, c2, f2)
+                label = "distinct-collections-get-distinct-association-tables"
+            else:  # the two columns of one association table (c1 has a collection of c2, or of itself)
+                _, l, r = generated_names(program, c1, f1, c2)
+                collide = (l == r) if len(l) == len(r) else False
+                names = (c1, f1, c2, None)
+                label = "association-table-columns-differ"
+        except Unmodelled as e:
+            raise symx.SymxError("the name computation of the generator is outside the modelled subset: %s" % e)
         if symbolic:
             # the solver decides whether colliding names exist at all (unsat = none within the bound); a satisfying
             # assignment is a candidate that the native re-run pushes through the real generator
@@ -398,6 +478,9 @@ def cases(tier, seed):
     L = 4 if tier == "quick" else 6
     cs.append(Case("names|association-table-name|len<=%d" % L, name_collision_case("association-table-name", L), key="names|association-table-name", validate=0, timeout=900, max_paths=200000, meta=dict(solver_finds_candidates_real_code_confirms=True)))
     cs.append(Case("names|association-columns|len<=%d" % L, name_collision_case("association-columns", L), key="names|association-columns", validate=0, timeout=900, max_paths=200000, meta=dict(solver_finds_candidates_real_code_confirms=True)))
+    # long class names (a concrete prefix of 40 / 56 characters + symbolic rest): length limits in the name computation become visible
+    for plen in (40, 56):
+        cs.append(Case("names|association-table-name|class names of %d+<=%d characters" % (plen, L), name_collision_case("association-table-name", L, prefix="P" * plen), key="names|association-table-name|long-%d" % plen, validate=0, timeout=900, max_paths=200000, meta=dict(solver_finds_candidates_real_code_confirms=True)))
     return cs
 
 
@@ -407,7 +490,8 @@ def describe(tier):
         "per class up to two fields with kinds from {int,str,float,bool,Optional[int],Enum,Optional[Enum],datetime,List[int],List[str],_private, reference, Optional "
         "reference, List/Set of a mapped class} with every reference target (incl. self and mutual references, two collections of one target), classes handed to "
         "ORMatic in every order; per specification the real pipeline runs end to end and the mapper is compared with an independent reading of the dataclasses; "
-        "generating twice must give identical text. (a) name templates lifted from wrapped_table.py by AST, evaluated on identifiers of bounded symbolic characters; "
+        "generating twice must give identical text. (a) the generator's own name computation (the assignments of create_one_to_many_relationship that the association-table name and its two column names depend on, "
+        "with their if-branches, slices, concatenations, .lower(), len() and module constants) is interpreted from wrapped_table.py's current AST on identifiers of bounded symbolic characters, also with class names that start with a concrete prefix of 40 / 56 characters; "
         "the solver looks for colliding association-table / column names and every hit is confirmed on the real generator. non-trivial = every path generates a module",
         bounds=dict(classes="<= 2 quick / <= 3 thorough", fields_per_class="<= 2", identifier_length="<= 3 quick / <= 4 thorough over the alphabet {A,B,D,O,a,b,d,o,_} (contains the letters of the 'dao_' delimiter)"),
         outside=["models outside the documented rules (other unions, nested or optional collections)", "alternative mappings and custom types (exercised in C04/C05)", "identifiers longer than the bound"],
